@@ -69,9 +69,16 @@ class Guard:
 GUARD_MARKS = ('np.any', 'np.isnan', 'np.isinf', 'np.ma.is_masked',
                'np.all', 'np.isfinite')
 
+def _log(x):
+    # log(exp(u)) = u for the real quantities lifted here
+    if getattr(x, 'func', None) == sp.exp:
+        return x.args[0]
+    return sp.log(x)
+
+
 UNARY = {
-    'np.log': sp.log, 'np.exp': sp.exp, 'np.sqrt': sp.sqrt,
-    'math.log': sp.log, 'math.exp': sp.exp, 'math.sqrt': sp.sqrt,
+    'np.log': _log, 'np.exp': sp.exp, 'np.sqrt': sp.sqrt,
+    'math.log': _log, 'math.exp': sp.exp, 'math.sqrt': sp.sqrt,
     'np.abs': sp.Abs, 'erf': sp.erf, 'math.erf': sp.erf,
     'scipy.special.erf': sp.erf, 'np.square': lambda x: x**2,
 }
@@ -460,6 +467,10 @@ class Lifter:
         if f in ('np.sum', 'np.ma.sum') and n.args:
             v = ev(n.args[0])
             return self._map1(v, lambda x: S(x))
+        if f in ('np.prod', 'np.product') and n.args:
+            # a product over the summed axis: exp of the sum of the logs
+            v = ev(n.args[0])
+            return self._map1(v, lambda x: sp.exp(S(sp.log(x))))
         if f == 'len' and n.args:
             v = ev(n.args[0])
             return S(sp.Integer(1))
